@@ -81,6 +81,24 @@ fn quad_order<A: Conv<O> + Ord + Hash, O: OF>(key: fn(&O) -> (u32, u32)) {
     ok &= !(a == b) || Collect::of(&a).same(&Collect::of(&b));
     assert!(ok);
 }
+/// extension with no documented coordinate priority ("ordered lexicographically"): order axioms, agreement with == and with the
+/// integer order on base-field elements (true of every lexicographic order), predicates, hashing
+fn ext_order<A: Conv<O> + Ord + Hash, O: OF>(c0: fn(&O) -> u32, lift: fn(u32) -> O) {
+    let (x, y, z) = (O::any(), O::any(), O::any());
+    let (a, b, c) = (A::from_o(&x), A::from_o(&y), A::from_o(&z));
+    crate::cover!(x != y && c0(&x) == c0(&y));
+    crate::cover!(a < b && c0(&x) > c0(&y));
+    let mut ok = (a == b) == (x == y) && (a.cmp(&b) == Ordering::Equal) == (x == y) && a.partial_cmp(&b) == Some(a.cmp(&b));
+    ok &= a.cmp(&b) == b.cmp(&a).reverse() && (a < b) == (a.cmp(&b) == Ordering::Less) && (a <= b) == (a.cmp(&b) != Ordering::Greater);
+    ok &= !(a <= b && b <= c) || a <= c;
+    // on the embedded base field the order is the integer order
+    let (u, v) = (c0(&x), c0(&y));
+    ok &= A::from_o(&lift(u)).cmp(&A::from_o(&lift(v))) == u.cmp(&v);
+    ok &= a.is_zero() == (x == O::zero()) && a.is_one() == (x == O::one()) && a.is_zero() == (a == A::ZERO) && a.is_one() == (a == A::ONE);
+    ok &= !(x == y) || Collect::of(&a).same(&Collect::of(&b));
+    ok &= x == y || a != b;
+    assert!(ok);
+}
 fn sw_hash_eq<C: SWCurveConfig + Toy>()
 where
     C::BaseField: Tiny,
@@ -92,7 +110,7 @@ where
     let (ha, hb) = (Collect::of(&a), Collect::of(&b));
     crate::cover!(i == j && z1 != z2 && i != 0);
     crate::cover!(i == 0 && j == 0);
-    let mut ok = (a == b) == (i == j) && (aa == ba) == (i == j) && (a == ba) == (i == j);
+    let mut ok = (a == b) == (i == j) && (aa == ba) == (i == j) && (a == ba) == (i == j) && (ba == a) == (i == j);
     // equal points hash equally whatever the representative; affine and projective hash alike
     ok &= i != j || ha.same(&hb);
     ok &= ha.same(&Collect::of(&aa));
@@ -110,7 +128,7 @@ where
     let (ha, hb) = (Collect::of(&a), Collect::of(&b));
     crate::cover!(i == j && z1 != z2 && i != 0);
     crate::cover!(i != j && C::T.pts[i].0 == 0 && C::T.pts[j].0 == 0);
-    let mut ok = (a == b) == (i == j) && (aa == ba) == (i == j) && (a == ba) == (i == j);
+    let mut ok = (a == b) == (i == j) && (aa == ba) == (i == j) && (a == ba) == (i == j) && (ba == a) == (i == j);
     ok &= i != j || ha.same(&hb);
     ok &= ha.same(&Collect::of(&aa));
     ok &= a.is_zero() == (i == 0);
@@ -127,9 +145,18 @@ crate::harnesses! { REG;
     /// quick required | Fp2 over F_7: ALL triples: cmp is the documented lexicographic order (c1 first, then c0), total, antisymmetric, transitive, consistent with ==; predicates; hashing
     #[unwind(70)]
     fn c19_fp2_order() { quad_order::<F7_2, O7_2>(|o| (o.0[1].0, o.0[0].0)) }
+    /// quick required | Fp3 over F_7 (cubic extension): ALL triples: cmp total, antisymmetric, transitive, Equal iff ==, partial_cmp = Some(cmp), integer order on the embedded base field; is_zero / is_one iff == ZERO / ONE (every coordinate matters); equal values hash equally
+    #[unwind(70)]
+    fn c19_fp3_order() { ext_order::<F7_3, O7_3>(|o| o.0[0].0, |v| OE([OP(v), OP(0), OP(0)], core::marker::PhantomData)) }
+    /// thorough required | Fp4 = Fp2[X]/(X^2 - u) over F_5 (quadratic over quadratic): ALL triples: order axioms, equality, predicates, hashing
+    #[unwind(70)]
+    fn c19_fp4_order() { ext_order::<F5_4, O5_4>(|o| o.0[0].0[0].0, |v| OE([OE([OP(v), OP(0)], core::marker::PhantomData), OE([OP(0), OP(0)], core::marker::PhantomData)], core::marker::PhantomData)) }
     /// quick required | SW cofactor 4: ALL pairs of points, ALL rescalings: Projective == independent of the representative, Projective == Affine, equal points hash to the same byte stream (different Jacobian coordinates, affine vs projective)
     #[unwind(70)]
     fn c19_sw_hash_eq() { sw_hash_eq::<SwCof4>() }
+    /// quick required | SW b = 0 (the curve has the affine point (0, 0), whose coordinates are those of the stored identity): ALL pairs, ALL rescalings: ==, Projective == Affine, is_zero, hashing
+    #[unwind(70)]
+    fn c19_sw_hash_eq_b0() { sw_hash_eq::<SwB0>() }
     /// quick required | TE complete: ALL pairs of points, ALL rescalings: equality and hashing (the identity (0,1) vs the order-two point (0,-1) distinguished)
     #[unwind(70)]
     fn c19_te_hash_eq() { te_hash_eq::<TeC>() }
